@@ -277,12 +277,16 @@ func (ts *TestServer) run(hs *HandlerScript, h *hIO, method string) (ret error) 
 		hs.Hook(h.ctx, w, actor)
 	}
 	nRecv, nSent := 0, 0
+	// like much hand-written gRPC code, the scripts reuse ONE message value for all their
+	// receives: every delivery must be exactly the message that was sent, not a merge with the
+	// previous one
+	reused := &wrapperspb.BytesValue{}
 	for i, op := range hs.Ops {
 		w.Point("h:" + hs.ID + ":" + op.K)
 		switch op.K {
 		case "recv", "recvall":
 			for {
-				m := &wrapperspb.BytesValue{}
+				m := reused
 				w.Log(Event{Actor: actor, Op: "recv-begin", Idx: nRecv})
 				err := h.recv(m)
 				em, ec := errFields(err)
@@ -488,6 +492,7 @@ func (w *World) RunCall(conn grpc.ClientConnInterface, spec *CallSpec) {
 	full, sd := methodDesc(spec.Method)
 	var cs grpc.ClientStream
 	nSent, nRecv := 0, 0
+	reused := &wrapperspb.BytesValue{} // see TestServer.run
 	logTargets := func() {
 		d := ""
 		if spec.HeaderOpt {
@@ -554,7 +559,7 @@ func (w *World) RunCall(conn grpc.ClientConnInterface, spec *CallSpec) {
 			w.Log(Event{Actor: actor, Op: "closesend", Err: em, Code: ec})
 		case "recv", "recvall":
 			for {
-				m := &wrapperspb.BytesValue{}
+				m := reused
 				w.Log(Event{Actor: actor, Op: "recv-begin", Idx: nRecv})
 				err := cs.RecvMsg(m)
 				em, ec := errFields(err)
